@@ -52,8 +52,8 @@ type PolicyPacket struct {
 
 // SetICMP stores type/code in the dport union (type in the low byte, as in the C struct).
 func (p *PolicyPacket) SetICMP(typ, code uint8) { p.DPortOrICMP = uint16(typ) | uint16(code)<<8 }
-func (p PolicyPacket) ICMPType() uint8           { return uint8(p.DPortOrICMP) }
-func (p PolicyPacket) ICMPCode() uint8           { return uint8(p.DPortOrICMP >> 8) }
+func (p PolicyPacket) ICMPType() uint8          { return uint8(p.DPortOrICMP) }
+func (p PolicyPacket) ICMPCode() uint8          { return uint8(p.DPortOrICMP >> 8) }
 
 func addrWords(a netip.Addr) [4]uint32 {
 	var w [4]uint32
